@@ -666,3 +666,13 @@ def linear_under(players, ctl, states, rew, pick, kind, finals, tag):
                 m = z3.If(o < m, o, m)
             cons.append(x[s] == base + m)
     return x, cons
+
+
+def near_chain(owner=P1, order=(0, 1, 2)):
+    """three successors whose values form a chain of near-ties (8e-7 apart: closer than the rounding unit, yet rounding to three
+    different 6-digit values); the middle one pays most"""
+    acts = [("a", 1), ("b", 2), ("c", 3)]
+    acts = [acts[i] for i in order]
+    return Game("near_chain(%s,%s)" % (owner[-1], "".join(map(str, order))), [owner, PR, PR, PR, PR, PR],
+                [acts, [(0.5000016, 4), (0.4999984, 5)], [(0.5000008, 4), (0.4999992, 5)], [(0.5, 4), (0.5, 5)], [(1, 4)], [(1, 5)]], [4],
+                [0, 1, 9, 3, 0, 0])
